@@ -8,7 +8,7 @@ CONSTANTS
   Preamble = FALSE
   MaxConf = 1
   Buf = 1
-  Fixes = {"D1", "D14", "D2", "D18", "D19"}
+  Fixes = {"D1", "D14", "D2", "D18", "D19", "D20"}
   ReplayLen = 10
 INVARIANTS RowsOnceInOrder Lag PrefixStable Boundary ReplaySections
 CONSTRAINT OneSection
